@@ -186,7 +186,7 @@ let monitor ic oc =
          | _ -> pending := None);
         last_blk := None;
         if !i < n && String.length arr.(!i) > 2 && arr.(!i).[0] = 'X' && arr.(!i).[2] = 'A' then begin
-          if !nopanic then report ln [(n_of_int 19, n_of_int 65)];
+          if !nopanic || !inv then report ln [(n_of_int 19, n_of_int 65)];
           pending := None
         end
       | 'O' ->
